@@ -55,16 +55,27 @@ def intoIterCount (kind : IntoKind) : Nat → SM K V Q Nat
       dropItem E kind p
       pure ((← intoIterCount kind fuel) + 1)
 
-/-- `last()` in a world where no destructor unwinds between two `next`s (the accumulator is
-    dropped after the next item exists). -/
+/-- the item that already sits in the return place of std's `some(_, x) = Some(x)` when the drop of
+    the old accumulator unwinds: it is not dropped (the return place is not, as observed for the
+    discarded halves in `remove` / `IntoKeys::next`) — leaked. -/
+def leakItem (kind : IntoKind) (p : K × V) : SM K V Q Unit :=
+  match kind with
+  | .pairs => do leak (.k p.1); leak (.v p.2)
+  | .keys => leak (.k p.1)
+  | .values => leak (.v p.2)
+
+/-- `last()`: the previous item is dropped after the next one has been produced; if that drop
+    unwinds, the new item is leaked (and the caller's frame drops the iterator). -/
 def intoIterLast (kind : IntoKind) : Nat → Option (K × V) → SM K V Q (Option (K × V))
   | 0, acc => pure acc
   | fuel + 1, acc => do
-    match ← intoIterNextK E kind with
+    -- `IntoKeys::next` / `IntoValues::next` drop the other half: if that unwinds, `fold`'s frame
+    -- still owns the accumulator and drops it
+    match ← unwindWith (match acc with | some q => dropItem E kind q | none => pure ()) (intoIterNextK E kind) with
     | none => pure acc
     | some p =>
       match acc with
-      | some q => dropItem E kind q
+      | some q => unwindWith (leakItem kind p) (dropItem E kind q)
       | none => pure ()
       intoIterLast kind fuel (some p)
 
@@ -136,7 +147,7 @@ def drainLast (hi : Nat) : Nat → Nat → Option (K × V) → SM K V Q (Option 
     | none => pure acc
     | some p =>
       match acc with
-      | some q => dropPair E q
+      | some q => unwindWith (do leakItem .pairs p; drainDrop E (lo + 1) hi) (dropPair E q)
       | none => pure ()
       drainLast hi fuel (lo + 1) (some p)
 
